@@ -39,6 +39,14 @@ func (a *Arena) AtEnd(b []byte) []byte {
 	off := a.n - len(b)
 	dst := a.data[off:a.n:a.n]
 	copy(dst, b)
+	// what precedes the input is not the harness's to define, but keep the near neighbourhood deterministic
+	lo := off - 256
+	if lo < 0 {
+		lo = 0
+	}
+	for i := lo; i < off; i++ {
+		a.data[i] = 0
+	}
 	return dst
 }
 
